@@ -44,7 +44,11 @@ type scripted struct {
 	calls []string
 	// contract violations by the strategy (not by the iterator)
 	badMergeArg string
+	// writes counts ObserveWrite calls (strategy.WriteObserver): the strategies report every change they make
+	writes int
 }
+
+func (s *scripted) ObserveWrite() { s.writes++ }
 
 func (s *scripted) Next() ([]byte, error) {
 	if s.cur >= len(s.input) {
@@ -420,6 +424,22 @@ func (h *harness) runOne(es []*entry, input [][]byte, label string, expectOrdere
 		}
 		if st.needs && !ordered {
 			h.res.Count("disorder_accepted", 1)
+		}
+		// the write observer is how the syncer learns whether its transaction changed anything: it must have been told
+		// of a write exactly when the strategy changed the DBI content (EmptyPut always drops, so it always reports)
+		if st.name != "EmptyPut" {
+			var beforeKV []kvp
+			for _, e := range es {
+				if e.Stored != nil {
+					beforeKV = append(beforeKV, kvp{e.Key, e.Stored})
+				}
+			}
+			sort.Slice(beforeKV, func(i, j int) bool { return cmpKeys(beforeKV[i].K, beforeKV[j].K, intKey) < 0 })
+			changed := diffKVP(got, beforeKV) != ""
+			if changed != (it.writes > 0) {
+				h.res.Violate("write-observer-disagrees:"+st.name, fmt.Sprintf("%s (%s): DBI content changed=%v but the strategy reported %d writes to the observer", st.name, label, changed, it.writes), wit())
+			}
+			h.res.Count("write_observer_checks", 1)
 		}
 		want := st.model()
 		if d := diffKVP(got, want); d != "" {
